@@ -567,8 +567,15 @@ pub fn sweep_case(prop: &'static str, focus: &Focus, check_100: bool, input: &In
     let p = input.params();
     let stream = sweep_stream(p[0], p[1] as usize);
     let (reqs, end) = ref_parse(&stream, buf_size(), DEFAULT_LIMIT);
-    let mut sch = sweep_mode_sched(p[2]);
-    let r = run_focus(prop, focus, &stream, &reqs, &end, None, check_100, &mut sch)?;
+    let r = if p[2] == 5 {
+        // mode 5: the first header block alone, then whole-window reads
+        let hdr_end = stream.windows(4).position(|w| w == b"\r\n\r\n").map(|i| i + 4).unwrap_or(stream.len());
+        let mut sch = cut_sched(vec![hdr_end], None);
+        run_focus(prop, focus, &stream, &reqs, &end, None, check_100, &mut sch)?
+    } else {
+        let mut sch = sweep_mode_sched(p[2]);
+        run_focus(prop, focus, &stream, &reqs, &end, None, check_100, &mut sch)?
+    };
     if r.offtopic {
         obs.label("offtopic_mismatch");
         return Ok(());
@@ -585,10 +592,10 @@ pub fn sweep_case(prop: &'static str, focus: &Focus, check_100: bool, input: &In
 
 pub fn sweep_enum(tier: Tier, shard: u64, nshards: u64, f: &mut dyn FnMut(&[u64]) -> bool) {
     let mut i = 0u64;
-    let ranges: [(u64, u64, u64); 5] = [(0, 960, 1040), (1, 0, 1100), (2, 0, 1100), (3, 0, 2200), (4, 60, 180)];
+    let ranges: [(u64, u64, u64); 5] = [(0, 960, 1040), (1, 0, 1100), (2, 0, 1100), (3, 0, 4200), (4, 60, 180)];
     for (t, lo, hi) in ranges {
         for pad in lo..=hi {
-            let modes: &[u64] = if tier == Tier::Quick { &[0, 1] } else { &[0, 1, 2, 3, 4] };
+            let modes: &[u64] = if tier == Tier::Quick { &[0, 1, 5] } else { &[0, 1, 2, 3, 4, 5] };
             for m in modes {
                 i += 1;
                 if i % nshards != shard {
@@ -977,18 +984,115 @@ fn c04_lines_enum(tier: Tier, shard: u64, nshards: u64, f: &mut dyn FnMut(&[u64]
     }
 }
 
+/// exhaustive over the declared length: params = [limit index, first n of a block of 256]
+const NSWEEP_LIMITS: [Option<usize>; 13] = [
+    Some(0), Some(1), Some(2), Some(3), Some(5), Some(8), Some(1023), Some(1024), Some(1025), Some(51199), None, Some(51201), Some(u32::MAX as usize),
+];
+
+fn c04_nsweep(input: &Input, obs: &mut Obs) -> Result<(), Fail> {
+    let p = input.params();
+    let limit = NSWEEP_LIMITS[p[0] as usize];
+    let l = eff(limit);
+    let mut cnt = 0u64;
+    let mut near = 0u64;
+    for n in p[1]..p[1] + 256 {
+        if n > u32::MAX as u64 {
+            break;
+        }
+        let n = n as usize;
+        // header block only: the verdict must not need a body byte
+        let head = format!("PUT /x HTTP/1.1\r\nContent-Length: {}\r\n\r\n", n).into_bytes();
+        let mut stream = head.clone();
+        let with_body = n <= 600 && n <= l;
+        if with_body {
+            stream.extend(crate::src::filler(0, n as u8, n));
+            stream.extend_from_slice(b"GET /after HTTP/1.1\r\n\r\n");
+        }
+        let mut run = ConnRun::new(stream.clone(), limit, false);
+        let st = run.read(ReadEv::Data { want: buf_size(), fds: vec![] }).map_err(|m| Fail::new("C04:misuse", m))?.clone();
+        cnt += 1;
+        if (n as i128 - l as i128).abs() <= 1 {
+            near += 1;
+        }
+        if n > l {
+            match &st.res {
+                RRes::Parse(PKind::Payload(a, b), _) if *a == l && *b == n => {}
+                other => {
+                    return Err(Fail::new("C04:missed-error", format!("limit {} declared {}: header block complete, result {:?} (expected SizeLimitExceeded({}, {}))", l, n, other, l, n)));
+                }
+            }
+            if !st.reqs.is_empty() {
+                return Err(Fail::new("C04:delivery", "a request over the limit was delivered".into()));
+            }
+        } else {
+            if st.res != RRes::Ok {
+                return Err(Fail::new("C04:spurious-error", format!("limit {} declared {}: result {:?} (the declaration is within the limit)", l, n, st.res)));
+            }
+            if with_body {
+                // drain the rest; the request must come out with exactly n body bytes, then the next one
+                let mut all = st.reqs.clone();
+                let mut guard = 0;
+                while run.remaining() > 0 && guard < 8 {
+                    guard += 1;
+                    let s2 = run.read(ReadEv::Data { want: buf_size(), fds: vec![] }).map_err(|m| Fail::new("C04:misuse", m))?.clone();
+                    if s2.res != RRes::Ok {
+                        return Err(Fail::new("C04:spurious-error", format!("limit {} declared {}: {:?} while reading the body", l, n, s2.res)));
+                    }
+                    all.extend(s2.reqs);
+                }
+                let bl = all.first().and_then(|d| d.body.as_ref().map(|b| b.len())).unwrap_or(0);
+                if all.len() != 2 || bl != n {
+                    return Err(Fail::new("C04:body-length", format!("limit {} declared {}: {} requests delivered, first body {} bytes", l, n, all.len(), bl)));
+                }
+            } else if n > 0 && !st.reqs.is_empty() {
+                return Err(Fail::new("C04:delivery", format!("declared {} with no body byte supplied, yet a request was delivered", n)));
+            }
+        }
+    }
+    obs.extra_evals = cnt.saturating_sub(1);
+    obs.extra_nontrivial = near;
+    if obs.want_render {
+        obs.render = format!("limit={:?}: every declared length {}..{} (header block only; with body and a following request when n <= 600)", limit, p[1], p[1] + 255);
+    }
+    Ok(())
+}
+
+fn c04_nsweep_enum(tier: Tier, shard: u64, nshards: u64, f: &mut dyn FnMut(&[u64]) -> bool) {
+    let mut c = 0u64;
+    for (li, lim) in NSWEEP_LIMITS.iter().enumerate() {
+        let l = eff(*lim) as u64;
+        let hi = if l > 100_000 { 70_000 } else { (l + 1024).max(if tier == Tier::Quick { 4096 } else { 70_000 }) };
+        let mut start = 0u64;
+        while start <= hi {
+            c += 1;
+            if c % nshards == shard && !f(&[li as u64, start]) {
+                return;
+            }
+            start += 256;
+        }
+        // the top of the u32 range
+        for start in [u32::MAX as u64 - 255, u32::MAX as u64 - 511, (1u64 << 31) - 128] {
+            c += 1;
+            if c % nshards == shard && !f(&[li as u64, start]) {
+                return;
+            }
+        }
+    }
+}
+
 fn c04_e2_32(input: &Input, obs: &mut Obs) -> Result<(), Fail> {
     small_cut2("C04", &F_C04, false, input, obs)
 }
 
 pub fn c04_conn_subs() -> Vec<(&'static str, SubFn)> {
-    vec![("limits", c04_limits), ("lines", c04_lines), ("e2_32", c04_e2_32), ("raw", crate::props::raw::c04_raw)]
+    vec![("limits", c04_limits), ("lines", c04_lines), ("e2_32", c04_e2_32), ("raw", crate::props::raw::c04_raw), ("nsweep", c04_nsweep)]
 }
 
 pub fn c04_conn_jobs(tier: Tier) -> Vec<Job> {
     let q = tier == Tier::Quick;
     vec![
         Job { sub: "limits", kind: JobKind::Pbt { cases: if q { 300_000 } else { 6_000_000 }, max_len: 400 }, smallbuf: false },
+        Job { sub: "nsweep", kind: JobKind::Enum { f: c04_nsweep_enum, bound: "13 limits x every declared length 0..max(L+1024, 4096 (quick) / 70000 (thorough)) and the top of the u32 range, header block only (and with body + following request for n <= 600)" }, smallbuf: false },
         Job { sub: "lines", kind: JobKind::Enum { f: c04_lines_enum, bound: "request/header line of every length 1000..1100 (incl. CRLF) x start offset 0..1100 (quick: step 13; thorough: every offset) x read sizes; B=32 build: lengths 20..40 x offsets 0..80" }, smallbuf: false },
         Job { sub: "lines", kind: JobKind::Enum { f: c04_lines_enum, bound: "B=32: line lengths 20..40 x offsets 0..80" }, smallbuf: true },
         Job { sub: "e2_32", kind: JobKind::Enum { f: small_cut2_enum, bound: "B=32 piece family x all cut pairs (size-related mismatches only)" }, smallbuf: true },
